@@ -83,6 +83,20 @@ def scan(root: str) -> Dict[str, List[int]]:
                 continue
             lines: Set[int] = set()
             for node in ast.walk(tree):
+                if isinstance(node, ast.Try):
+                    # try: x = memo[k] / obj.attr   except KeyError/AttributeError: memo[k] = … (EAFP memo)
+                    read = set()
+                    for st in node.body:
+                        for sub in ast.walk(st):
+                            if isinstance(sub, ast.Subscript):
+                                read.add(ast.unparse(sub.value))
+                            elif isinstance(sub, ast.Attribute):
+                                read.add(ast.unparse(sub))
+                    for h in node.handlers:
+                        st = _stores(h.body)
+                        if any(s_ == t or s_.startswith(t + "[") or s_.startswith(t + ".") for s_ in st for t in read):
+                            lines.update(_body_lines(h.body))
+                    continue
                 if not isinstance(node, ast.If):
                     continue
                 tested = _exprs_tested(node.test)
